@@ -374,7 +374,7 @@ func init() {
 			"starting from a cold cache, under a seeded schedule with scheduling points before every atomic load/store and mutex operation of the regexp cache and every pool operation; oracle = regexp.Compile of that very pattern; built with -race. " +
 			"non-trivial = at least one context switch inside the run, or a sequential history; distinct = distinct (operation kinds, pattern/subject sequence, switch sites)",
 		Real: commonReal,
-		Stub: append(append([]string{}, commonStub...), "sync.Mutex / atomic.Value operations of package validate -> scheduling point, then the real operation (mutex: TryLock loop)", "goroutine scheduling -> baton scheduler (one runnable task at a time, seeded choice)"),
+		Stub: append(append([]string{}, commonStub...), "sync.Mutex / sync.Locker / atomic / sync.Map / sync.Once / channel operations of package validate -> scheduling point, then the real operation (mutex: TryLock loop; channels: non-blocking retries); sync.Cond -> ticket emulation (Wait releases L and is blocked until notified)", "goroutine scheduling -> baton scheduler (one runnable task at a time, seeded choice)"),
 		Assume: []string{
 			"preemption only at synchronisation points of package validate (complete for race-free executions; racy ones are reported by the race detector within its window)",
 			"a lost cache entry is not a violation (only recompilation)",
